@@ -450,7 +450,8 @@ pub fn run_plan(plan: &mut Plan, mut gen: Option<&mut Gen>, out: &mut Outp) {
             }
         }
         // 4. same text (not after an injected panic or a leaked Drain: std promises nothing there)
-        let skip_text = (injected && matches!(rb, R::Panic)) || forgot;
+        let panic_mismatch = matches!(rb, R::Panic) != matches!(rs, R::Panic);
+        let skip_text = (injected && matches!(rb, R::Panic)) || forgot || panic_mismatch;
         match (bs.as_ref(), ss.as_ref()) {
             (Some(b), Some(s)) => {
                 if !skip_text && !invalid && b.as_bytes() != s.as_bytes() {
